@@ -227,7 +227,13 @@ func behave(s *httpd.Store) {
 	}
 	if body {
 		if q.Get("copy") == "true" {
-			io.Copy(s.W, onlyReader{strings.NewReader("hello")})
+			// sizes below and above the thresholds of copy fast paths (one block, several blocks)
+			n := 0
+			for _, ch := range []byte(s.R.URL.Path) {
+				n = (n*31 + int(ch)) & 0xffff
+			}
+			size := []int{5, 4095, 4096, 5, 32769, 100000}[n%6]
+			io.Copy(s.W, onlyReader{strings.NewReader(strings.Repeat("hello", size/5+1)[:size])})
 		} else {
 			s.W.Write([]byte("hello"))
 		}
